@@ -106,7 +106,7 @@ VARIANTS = {
         V("equivalent: no zero_grad (gradients are assigned, not accumulated)", NS, "optimizer.zero_grad()", "", "silent"),
     ],
     "C07": [
-        V("bases shuffled independently", NS, "input_bases[pos_batch_perm]", "input_bases[torch.randperm(train_samples.shape[0])]"),
+        V("bases shuffled independently", NS, "input_bases[pos_batch_perm.numpy()]", "input_bases[torch.randperm(train_samples.shape[0]).numpy()]"),
         V("floor instead of ceil", NS, "ceil(train_samples.shape[0] / pos_batch_size)", "train_samples.shape[0] // pos_batch_size"),
         V("bases tiling one short", NS, "range(0, len(train_samples), pos_batch_size)", "range(0, len(train_samples) - 1, pos_batch_size)"),
         V("z indices drawn over all rows", NS, "z_samples.shape[0]", "train_samples.shape[0]", nth=0),
